@@ -41,10 +41,11 @@ def _slot_correspondence(prop, report, tier, cases=None):
 
 SLOT_FAMILIES = {
     "C02": ("insert_cnt", "shift_right_cnt", "shift_right1", "fill_after_shift", "erase", "insert_own",
-            "shift_right1_tr", "shift_right_cnt_tr", "unshift_right_tr", "shift_left_tr", "erase_tr"),
+            "shift_right1_tr", "shift_right_cnt_tr", "unshift_right_tr", "shift_left_tr", "erase_tr",
+            "swap_deep", "swap_deep_tr", "move_n", "move_n_tr", "reloc", "reloc_tr", "erase_at", "erase_at_tr"),
     "C09": ("insert_cnt_th", "resize_grow", "assign_grow", "assign_shrink", "emplace_n_th", "emplace_grow_th", "emplace_back_grow_th", "insert_n_th", "shift_left",
             "shift_right1_mt", "shift_right_cnt_mt", "shift_left_mt", "insert_n_mt", "emplace_n_mt", "erase_mt",
-            "insert_n_tr", "emplace_n_tr", "insert_cnt_tr", "insert_range_tr", "unshift_right_tr"),
+            "insert_n_tr", "emplace_n_tr", "insert_cnt_tr", "insert_range_tr", "unshift_right_tr", "reloc_cp", "reloc_mt", "erase_at_mt"),
     "C10": ("insert_own",),
 }
 
